@@ -70,8 +70,8 @@ impl Property for C16 {
         let per = match (tier, suite.slow()) {
             (Tier::Quick, false) => 150,
             (Tier::Quick, true) => 25,
-            (Tier::Thorough, false) => 600,
-            (Tier::Thorough, true) => 100,
+            (Tier::Thorough, false) => 6000,
+            (Tier::Thorough, true) => 600,
         };
         (0..10).map(|s| (s, per)).collect()
     }
